@@ -350,6 +350,28 @@ func runCheck(repo, verif, prop, tier string) int {
 	}
 	// structural facts (C17): package-level variables and go statements
 	structural := map[string]interface{}{"package_level_variables": p.Globals, "go_statements": p.GoStmts}
+	if prop == "C11" || prop == "C17" {
+		// the structural sweep covers every function of the packages, with or without a contract
+		finds := p.structuralSweep()
+		nObl++
+		var fl []string
+		for _, fd := range finds {
+			fl = append(fl, fd.Func+" at "+fd.Pos+": "+fd.What)
+		}
+		structural["sweep_findings"] = fl
+		structural["sweep"] = "every function of pkg/ast, pkg/parser/hsms, pkg/parser/sml: no store to a field of an existing object of an immutable type, no element store or map update into a slice or map of such an object, no store to a package-level variable outside init"
+		if len(finds) == 0 {
+			nDis++
+			all = append(all, oblReport{Name: "structural-sweep", Kind: "structural", Status: "no finding"})
+		} else {
+			for _, fd := range finds {
+				name := fd.Func + "#immutable-write(" + fd.What + ")"
+				all = append(all, oblReport{Name: name, Kind: "structural", Status: "finding at " + fd.Pos})
+				rp := writeReplayFile(replayDir, name, prop, nil, fd.Func+" at "+fd.Pos+": "+fd.What+" (structural sweep over the SSA of every function; no input is needed to see it, and none was constructed)", "")
+				violations = append(violations, fmt.Sprintf("VIOLATION property=%s replay=%s obligation=%s no-failing-input-found", prop, rp, name))
+			}
+		}
+	}
 	sort.Strings(funcs)
 	var assumptions []string
 	for a := range assume {
